@@ -184,6 +184,7 @@ type c26Req struct {
 	body          int
 	try           int
 	note          string
+	answer        string // scripted auto mode: the behaviour chosen for this request
 	reply         chan string
 }
 
@@ -194,6 +195,8 @@ type c26World struct {
 	arrived int
 	seen    map[string]int
 	auto    bool
+	script  func(*c26Req) string // auto mode: chooses the answer (nil: always "ok") and makes the world keep a log
+	log     []*c26Req
 	id      string
 	sig     c26Signal
 	clock   *clockwork.FakeClock
@@ -332,12 +335,20 @@ func c26Handler(host string) http.HandlerFunc {
 		auto := wd.auto
 		if !auto {
 			wd.held = append(wd.held, req)
+		} else if wd.script != nil {
+			wd.log = append(wd.log, req)
 		}
+		script := wd.script
 		wd.mu.Unlock()
 		wd.sig.ping()
 		b := "ok"
 		if !auto {
 			b = <-req.reply
+		} else if script != nil {
+			b = script(req)
+			wd.mu.Lock()
+			req.answer = b
+			wd.mu.Unlock()
 		}
 		c26Reply(w, wd, b, len(ids))
 	}
